@@ -54,7 +54,7 @@ KnownDefect2 == "bool-byte"          \* x08 e_name x00 | x08 e_name x01: any oth
 KnownDefect3 == "minmax-key"         \* xFF e_name / x7F e_name have NO payload; jsoncons reads a string after them
 KnownDefect4 == "regex-utf8"         \* the two cstrings of a regular expression are not validated (invalid UTF-8 reaches the visitor)
 KnownDefect5 == "array-key-utf8"     \* e_name of array elements is skipped without validation
-Tolerated == {KnownDefect3, KnownDefect5}      \* 1, 2 and 4 were repaired in /repo (fix commit fe10d81) and are enforced again
+Tolerated == {KnownDefect3}      \* 1, 2, 4 (fix commit fe10d81) and 5 were repaired in /repo and are enforced again
 Tol(class, res) == IF class \in Tolerated THEN res ELSE Err
 
 -----------------------------------------------------------------------------
